@@ -24,7 +24,7 @@ RULE = ("pool of diversely-typed values (built-ins, str/int/dict/list/tuple subc
         "child forked from a parent that imported the library and processed nothing, then EVERY probe in its own grandchild; "
         "the outcome (accept / exception class / category / stored form) must equal the probe's outcome in a genuinely fresh "
         "interpreter; non-trivial = distinct (history, probe) pairs")
-BOUNDS = {"quick": "all warm-up histories of length <= 1 x all probes", "thorough": "length <= 2 over the full pool"}
+BOUNDS = {"quick": "all warm-up histories of length <= 1 x all probes over 8 channels", "thorough": "13 channels, length <= 2 over the full pool"}
 ASSUMPTIONS = ["numpy from the offline wheelhouse is installed privately under /verif/.deps for this check only",
                "the pool of types is finite; outcomes are compared as (status, exception class, stored plain form)"]
 
@@ -242,8 +242,14 @@ def apply_channel(channel, value):
     raise ValueError(channel)
 
 
+QUICK_CHANNELS = ("json_format_validator", "json_attr_dict_validator", "is_base_type_dict", "is_base_type_list",
+                  "ctor_dict", "setitem_dict", "append_list", "reset_dict")
+_TIER = ["thorough"]
+
+
 def events(with_numpy=True):
-    return [(c, v) for v in pool(with_numpy) for c in CHANNELS]
+    chans = QUICK_CHANNELS if _TIER[0] == "quick" else CHANNELS
+    return [(c, v) for v in pool(with_numpy) for c in chans]
 
 
 def _fork_outcome(fn):
@@ -294,6 +300,7 @@ def fresh_baseline(evs):
 
 def plan(tier, seed):
     env.lib(True)
+    _TIER[0] = tier
     evs = events()
     p = pool()
     # outcome of every probe in a child forked from this pristine process (library imported, nothing processed)
@@ -345,6 +352,7 @@ def finish(agg, tier, seed):
 
 def run_task(task):
     env.lib(True)
+    _TIER[0] = task["tier"]
     evs = events()
     res = new_result()
     first = task["first"]
